@@ -38,8 +38,11 @@
 (*   OrderBy = "zip"      : take them in archive order                     *)
 (*   OrderBy = "convention": declared list, but an unreadable reference   *)
 (*                          falls back to the conventional file name      *)
-(*   Decode  = "path"     : %XX decoding of a URL path ('+' is a plus)     *)
+(*   Decode  = "path"     : as the standard says: EPUB hrefs are percent-   *)
+(*                          decoded once ('+' is a plus); OPC Targets are  *)
+(*                          not decoded (part name = ZIP item name)        *)
 (*   Decode  = "query"    : form decoding ('+' becomes a space)            *)
+(*   Decode  = "twice"    : percent-decoding applied twice                 *)
 (* TLC proves the properties for declared/path and must refute the others. *)
 (***************************************************************************)
 EXTENDS Integers, Sequences, FiniteSets, TLC, SequencesExt
@@ -61,19 +64,53 @@ Norm(acc, rest) ==
     ELSE IF Head(rest) = "."  THEN Norm(acc, Tail(rest))
     ELSE Norm(Append(acc, Head(rest)), Tail(rest))
 
-\* spelling of the special character in a reference -> the character it denotes
+\* ---- part NAMES and their spelling in a reference ----
+\* A member name carries one "special" piece sp; the reference spells it as enc:
+\*   sp      text in the member name        enc      text in the href / Target
+\*   none    (nothing)                      none     (nothing)
+\*   space   " "                            sp20     %20
+\*   plus    +                              plusLit  +          plus2B   %2B
+\*   pct20   %20  (a percent sign and 20)   pct2520  %2520
+\*   pctz    %z   (a lone percent sign)     pct25z   %25z
+\*   eacute  e-acute (U+00E9)               eC3A9    %C3%A9     eRaw     the character itself (IRI)
+\*   paren   (x)                            paren    (x)
+\*   amp     &                              amp      &   (written &amp; inside the XML attribute)
+\*   pct2B %2B, pctC3A9 %C3%A9, pct2520 %2520, pct25z %25z : names that literally contain that text
+\*
+\* How a reference denotes a member name:
+\*   "path"  EPUB (OCF 4.2 / URL standard): the href is a URL path, percent-decoded ONCE; '+' is a plus
+\*   "opc"   OOXML (ECMA-376 Part 2, 8.2 / 10.2): part names ARE the percent-encoded form and the ZIP
+\*           item name is the part name; nothing is decoded, Target text = member name text
+\*   "query" form decoding: like "path" but '+' becomes a space            (refutable variant)
+\*   "twice" percent-decoding applied two times                            (refutable variant)
+PathDecode(enc) ==
+    CASE enc = "none" -> "none"   [] enc = "sp20" -> "space"  [] enc = "plusLit" -> "plus" [] enc = "plus2B" -> "plus"
+      [] enc = "pct2520" -> "pct20" [] enc = "pct25z" -> "pctz" [] enc = "eC3A9" -> "eacute" [] enc = "eRaw" -> "eacute"
+      [] enc = "paren" -> "paren"  [] enc = "amp" -> "amp"
+\* percent-decoding a member-name text once more (what a second decoding pass sees)
+ReDecode(sp) ==
+    CASE sp = "pct20" -> "space" [] sp = "pct2B" -> "plus" [] sp = "pctC3A9" -> "eacute"
+      [] sp = "pct2520" -> "pct20" [] sp = "pct25z" -> "pctz" [] OTHER -> sp      \* "%z" is no escape: kept
+\* the reference text taken literally as a name
+Literal(enc) ==
+    CASE enc = "none" -> "none"   [] enc = "sp20" -> "pct20"  [] enc = "plusLit" -> "plus" [] enc = "plus2B" -> "pct2B"
+      [] enc = "pct2520" -> "pct2520" [] enc = "pct25z" -> "pct25z" [] enc = "eC3A9" -> "pctC3A9" [] enc = "eRaw" -> "eacute"
+      [] enc = "paren" -> "paren"  [] enc = "amp" -> "amp"
+
 DecodeWith(mode, enc) ==
-    CASE enc = "none"    -> "none"
-      [] enc = "sp20"    -> "space"                                   \* %20
-      [] enc = "plus2B"  -> "plus"                                    \* %2B
-      [] enc = "plusLit" -> IF mode = "path" THEN "plus" ELSE "space" \* a literal +
+    CASE mode = "path"  -> PathDecode(enc)
+      [] mode = "opc"   -> Literal(enc)
+      [] mode = "query" -> IF enc = "plusLit" THEN "space" ELSE PathDecode(enc)
+      [] mode = "twice" -> ReDecode(PathDecode(enc))
+
+StdMode(fmt) == IF fmt = "epub" THEN "path" ELSE "opc"
+\* Decode = "path" stands for "what the governing standard says"; other values force a variant
+EffMode(fmt) == IF Decode = "path" THEN StdMode(fmt) ELSE Decode
 
 \* the member a reference denotes when read from a document in directory base
 ResolveWith(mode, base, href) ==
     [dir  |-> Norm(<<>>, IF href.abs THEN href.segs ELSE base \o href.segs),
      stem |-> href.stem, sp |-> DecodeWith(mode, href.enc), n |-> href.n, ext |-> href.ext]
-
-Resolve(base, href) == ResolveWith(Decode, base, href)
 
 PartSet(p)  == {p.parts[i] : i \in 1..Len(p.parts)}
 Declared(p) == {x \in PartSet(p) : x.decl > 0}
@@ -92,7 +129,7 @@ WellFormed(p) ==
     /\ \A x, y \in PartSet(p) : (x # y) => x.zip # y.zip
     /\ {x.decl : x \in Declared(p)} = 1..NDecl(p)
     /\ \A x, y \in Declared(p) : (x.decl = y.decl) => x = y
-    /\ \A x \in Declared(p) : ResolveWith("path", p.base, x.href) = x.name
+    /\ \A x \in Declared(p) : ResolveWith(StdMode(p.fmt), p.base, x.href) = x.name
 
 \* ------------------------------ the reader ------------------------------
 Candidates(p) ==
@@ -105,7 +142,7 @@ Candidates(p) ==
 
 \* the member the reader opens for candidate x (empty: not readable)
 Opened(p, x) ==
-    LET byRef == {y \in PartSet(p) : y.present /\ y.name = Resolve(p.base, x.href)} IN
+    LET byRef == {y \in PartSet(p) : y.present /\ y.name = ResolveWith(EffMode(p.fmt), p.base, x.href)} IN
     CASE OrderBy = "declared" -> byRef
       [] OrderBy = "convention" ->
             IF byRef # {} THEN byRef
